@@ -1016,6 +1016,10 @@ def srs(
     wn = 2 * pi * freq.astype(float)
     LF = len(freq)
     sig = np.atleast_1d(sig)
+    if sig.dtype.kind == "f" and sig.dtype.itemsize > 8:
+        # extended precision input: work in float64 as the parallel
+        # path does (its shared arrays are float64)
+        sig = sig.astype(float)
     if sig.ndim == 1:
         oneD = True
         sig = sig.reshape(-1, 1)
